@@ -45,6 +45,7 @@ type muxObs struct {
 	Rwait    map[string][]bool `json:"rwait"`
 	Await    bool              `json:"await"`
 	Settled  bool              `json:"settled"`
+	Timers   map[string]int    `json:"timers"`
 }
 
 type muxStep struct {
@@ -64,6 +65,9 @@ type muxConc struct {
 	NC         int    `json:"nc"`
 	SizeClass  int    `json:"size_class"` // selects unit sizes
 	Key        string `json:"key_seed"`
+	Gates      bool   `json:"gates"`    // park goroutines at the labelled schedule points
+	TimerEp    string `json:"timer_ep"` // endpoint whose inactivity timer is live ("" = none)
+	Late       int    `json:"late"`     // number of highest-numbered connections the client adds later
 }
 
 type muxCall struct {
@@ -103,6 +107,26 @@ type muxWorld struct {
 	wire      map[string]map[uint32][]muxWireFrame // frames each endpoint put on the wire, per stream id, in wire order
 	wireErr   string
 	sendFail  map[string]map[int]bool // streams on which the model has a failed send (a number may be skipped)
+	gateOn    bool
+	gateCh    map[string]chan struct{}
+	openCall  *muxCall
+	addCall   *muxCall
+	timerQ    []time.Time
+	prevTimer int
+}
+
+const muxIdle = 30 * time.Second
+
+var muxGatePoints = []string{"sesh.open.checked", "sesh.open.registered", "sesh.recv.published", "sesh.timeout.decided", "sb.addConn.counted"}
+
+// release lets the goroutine parked at a schedule point continue; false if nobody is parked there
+func (w *muxWorld) release(point string) bool {
+	select {
+	case w.gateCh[point] <- struct{}{}:
+		return true
+	default:
+		return false
+	}
 }
 
 type muxWireFrame struct {
@@ -156,8 +180,12 @@ func muxNewWorld(conc muxConc) (*muxWorld, error) {
 		if err != nil {
 			return nil, err
 		}
+		idle := 1000000 * time.Second
+		if e == conc.TimerEp {
+			idle = muxIdle
+		}
 		cfg := SessionConfig{Obfuscator: obfs, Unordered: conc.Unordered, Singleplex: conc.Singleplex,
-			MsgOnWireSizeLimit: 16401, InactivityTimeout: 30 * time.Second}
+			MsgOnWireSizeLimit: 16401, InactivityTimeout: idle}
 		w.sesh[e] = MakeSession(uint32(7), cfg)
 	}
 	w.maxUnit = w.sesh["c"].maxStreamUnitWrite
@@ -180,12 +208,31 @@ func muxNewWorld(conc muxConc) (*muxWorld, error) {
 		}
 		w.wire[e][f.StreamID] = append(w.wire[e][f.StreamID], muxWireFrame{Seq: f.Seq, Closing: f.Closing, Len: len(f.Payload), Conn: ev.Link + 1})
 	}
+	if conc.TimerEp != "" {
+		w.timerQ = append(w.timerQ, time.Now().Add(muxIdle))
+		w.prevTimer = 1
+	}
 	for c := 0; c < conc.NC; c++ {
 		l := w.vn.NewLink(true, false)
 		w.links = append(w.links, l)
-		w.sesh["c"].AddConnection(common.NewTLSConn(l.End(0)))
+		if c < conc.NC-conc.Late {
+			w.sesh["c"].AddConnection(common.NewTLSConn(l.End(0)))
+		}
 		w.sesh["s"].AddConnection(common.NewTLSConn(l.End(1)))
 	}
+	w.gateCh = map[string]chan struct{}{}
+	for _, p := range muxGatePoints {
+		w.gateCh[p] = make(chan struct{})
+	}
+	w.gateOn = conc.Gates
+	verifhook.Set(func(point string, args ...uint64) {
+		if !w.gateOn {
+			return
+		}
+		if ch, ok := w.gateCh[point]; ok {
+			<-ch
+		}
+	})
 	verifhook.SetPick(func(n uint32) (uint32, bool) {
 		w.pickMu.Lock()
 		defer w.pickMu.Unlock()
@@ -205,6 +252,12 @@ func muxNewWorld(conc muxConc) (*muxWorld, error) {
 }
 
 func (w *muxWorld) shutdown() {
+	w.gateOn = false
+	for _, p := range muxGatePoints {
+		for w.release(p) {
+		}
+	}
+	verifhook.Set(nil)
 	verifhook.SetPick(nil)
 	for _, l := range w.links {
 		l.Fail()
@@ -249,7 +302,7 @@ func (w *muxWorld) addPicks(steps []muxStep, i int) {
 			add(steps[j].Ev)
 			continue
 		}
-		if a == "DeplexEnd" || a == "ReadWake" || a == "AcceptWake" || a == "DeliverB" || a == "TimerClose" || a == "Open" || a == "OpenRegister" {
+		if a == "DeplexEnd" || a == "ReadWake" || a == "AcceptWake" || (!muxGatesOn && (a == "DeliverB" || a == "TimerClose" || a == "Open" || a == "OpenRegister" || a == "AddConn")) {
 			continue
 		}
 		break
@@ -289,6 +342,7 @@ type muxVerdict struct {
 
 // muxRun executes one behaviour. It returns a violation (Key != "") or a divergence note (model drift).
 func muxRun(b *muxBehaviour, conc muxConc) (v muxVerdict, table []string, diverged string) {
+	muxGatesOn = conc.Gates
 	w, err := muxNewWorld(conc)
 	if err != nil {
 		return muxVerdict{}, nil, "setup: " + err.Error()
@@ -298,8 +352,22 @@ func muxRun(b *muxBehaviour, conc muxConc) (v muxVerdict, table []string, diverg
 	steps := b.Steps
 	for i := 0; i < len(steps); i++ {
 		ev := steps[i].Ev
+		now := time.Now()
 		if vv := w.step(steps, i); vv.Key != "" || w.diverged != "" {
 			return vv, w.table, w.diverged
+		}
+		if conc.TimerEp != "" {
+			// every re-arming of the inactivity check (stream count back to zero) is due muxIdle after this instant
+			fired := 0
+			if ev.A == "TimerRead" {
+				fired = 1
+				now = time.Now()
+			}
+			for k := steps[i].Obs.Timers[conc.TimerEp] - (w.prevTimer - fired); k > 0; k-- {
+				w.timerQ = append(w.timerQ, now.Add(muxIdle))
+			}
+			w.prevTimer = steps[i].Obs.Timers[conc.TimerEp]
+			time.Sleep(time.Millisecond) // keeps the instants of different steps apart
 		}
 		// compare the observation when the group (environment step + its internal continuations) is over
 		last := i+1 == len(steps) || !muxInternal(steps[i+1].Ev.A, steps, i+1)
@@ -360,12 +428,16 @@ func (w *muxWorld) checkWire() muxVerdict {
 	return muxVerdict{}
 }
 
+var muxGatesOn bool // set per behaviour: with gates the continuation steps behind a hook are environment steps
+
 func muxInternal(a string, steps []muxStep, j int) bool {
 	switch a {
-	case "DeplexEnd", "ReadWake", "AcceptWake", "DeliverB", "TimerClose", "SessCloseB", "OpenRegister":
+	case "DeplexEnd", "ReadWake", "AcceptWake", "SessCloseB":
 		return true
+	case "DeliverB", "TimerClose", "OpenRegister", "AddConn":
+		return !muxGatesOn
 	case "Open":
-		return j > 0 && (steps[j-1].Ev.A == "OpenCheck" || steps[j-1].Ev.A == "OpenRegister")
+		return !muxGatesOn && j > 0 && (steps[j-1].Ev.A == "OpenCheck" || steps[j-1].Ev.A == "OpenRegister")
 	case "Write":
 		return j > 0 && steps[j-1].Ev.A == "Write" && !steps[j-1].Ev.Done && steps[j-1].Ev.E == steps[j].Ev.E && steps[j-1].Ev.S == steps[j].Ev.S
 	}
@@ -380,14 +452,86 @@ func (w *muxWorld) step(steps []muxStep, i int) muxVerdict {
 	w.addPicks(steps, i)
 	switch ev.A {
 	case "OpenCheck":
+		if w.conc.Gates {
+			w.openCall = w.async("open", func(c *muxCall) { c.strm, c.err = w.sesh["c"].OpenStream() })
+			synctest.Wait()
+			if w.openCall.finished() {
+				w.diverged = fmt.Sprintf("step %d: OpenStream returned (%v) instead of reaching its first schedule point", i, w.openCall.err)
+			}
+			return muxVerdict{}
+		}
 		// the call runs to completion; its result is the following "Open" entry (or this one if refused)
 		exp := ev
 		for j := i + 1; j < len(steps) && (steps[j].Ev.A == "OpenRegister" || steps[j].Ev.A == "Open"); j++ {
 			exp = steps[j].Ev
 		}
 		return w.doOpen(i, exp)
-	case "Open": // refused at the check
-		return w.doOpen(i, ev)
+	case "OpenRegister": // gates: let the parked OpenStream re-check, count and publish; it parks again
+		if !w.release("sesh.open.checked") {
+			w.diverged = fmt.Sprintf("step %d: nobody parked at sesh.open.checked", i)
+			return muxVerdict{}
+		}
+		synctest.Wait()
+		if w.openCall.finished() {
+			if w.openCall.err != nil {
+				return muxVerdict{"open-refused", fmt.Sprintf("step %d: OpenStream on a live session failed: %v", i, w.openCall.err)}
+			}
+			w.diverged = fmt.Sprintf("step %d: OpenStream returned without passing sesh.open.registered", i)
+		}
+	case "Open":
+		if w.conc.Gates && w.openCall != nil {
+			// the parked call finishes: refused after the re-check, or returning its stream
+			pt := "sesh.open.registered"
+			if i > 0 && steps[i-1].Ev.A == "OpenCheck" || !ev.Ok {
+				pt = "sesh.open.checked"
+			}
+			if !w.release(pt) {
+				w.diverged = fmt.Sprintf("step %d: nobody parked at %s", i, pt)
+				return muxVerdict{}
+			}
+			synctest.Wait()
+			call := w.openCall
+			w.openCall = nil
+			if !call.finished() {
+				if ev.Ok {
+					return muxVerdict{"call-blocked", fmt.Sprintf("step %d: OpenStream did not return", i)}
+				}
+				// the code went on to register a stream although the session is closed: finish the call
+				w.release("sesh.open.registered")
+				synctest.Wait()
+				if call.finished() && call.err == nil {
+					return muxVerdict{"open-on-closed", fmt.Sprintf("step %d: OpenStream registered a stream on a session that was closed in the meantime", i)}
+				}
+				return muxVerdict{"call-blocked", fmt.Sprintf("step %d: OpenStream did not return", i)}
+			}
+			return w.finishOpen(i, ev, call)
+		}
+		return w.doOpen(i, ev) // refused at the check
+	case "DeliverB":
+		if !w.release("sesh.recv.published") {
+			w.diverged = fmt.Sprintf("step %d: nobody parked at sesh.recv.published", i)
+			return muxVerdict{}
+		}
+		synctest.Wait()
+	case "TimerClose":
+		if !w.release("sesh.timeout.decided") {
+			w.diverged = fmt.Sprintf("step %d: nobody parked at sesh.timeout.decided", i)
+			return muxVerdict{}
+		}
+		synctest.Wait()
+	case "AddConnFirst":
+		l := w.links[ev.C-1]
+		w.addCall = w.async("addconn", func(c *muxCall) { w.sesh["c"].AddConnection(common.NewTLSConn(l.End(0))) })
+		synctest.Wait()
+		if w.conc.Gates == w.addCall.finished() {
+			w.diverged = fmt.Sprintf("step %d: AddConnection finished=%v with gates=%v", i, w.addCall.finished(), w.conc.Gates)
+		}
+	case "AddConn":
+		if !w.release("sb.addConn.counted") {
+			w.diverged = fmt.Sprintf("step %d: nobody parked at sb.addConn.counted", i)
+			return muxVerdict{}
+		}
+		synctest.Wait()
 	case "Write":
 		return w.doWrite(steps, i)
 	case "CloseStream":
@@ -459,9 +603,15 @@ func (w *muxWorld) step(steps []muxStep, i int) muxVerdict {
 		w.logf("step %d ConnFail(%d)", i, ev.C)
 	case "TimerRead":
 		// let virtual time pass until e's oldest armed inactivity check fires
-		time.Sleep(30*time.Second + time.Millisecond)
+		if len(w.timerQ) == 0 {
+			w.diverged = fmt.Sprintf("step %d: the harness knows of no armed inactivity check", i)
+			return muxVerdict{}
+		}
+		d := w.timerQ[0]
+		w.timerQ = w.timerQ[1:]
+		time.Sleep(time.Until(d))
 		synctest.Wait()
-		w.logf("step %d TimerRead(%s) idle=%v", i, ev.E, ev.Idle)
+		w.logf("step %d TimerRead(%s) idle=%v at %v", i, ev.E, ev.Idle, time.Now().Format("15:04:05.000"))
 	default:
 		w.diverged = fmt.Sprintf("step %d: harness does not know action %q", i, ev.A)
 	}
@@ -474,6 +624,10 @@ func (w *muxWorld) doOpen(i int, exp muxEv) muxVerdict {
 	if !call.finished() {
 		return muxVerdict{"call-blocked", fmt.Sprintf("step %d: OpenStream did not return", i)}
 	}
+	return w.finishOpen(i, exp, call)
+}
+
+func (w *muxWorld) finishOpen(i int, exp muxEv, call *muxCall) muxVerdict {
 	w.logf("step %d Open expected ok=%v id=%d observed err=%v", i, exp.Ok, exp.Id, call.err)
 	if exp.Ok {
 		if call.err != nil {
@@ -734,7 +888,7 @@ func muxNontrivial(b *muxBehaviour) bool {
 	// flight on another connection, or a close/fault/timer step occurs
 	for _, st := range b.Steps {
 		switch st.Ev.A {
-		case "CloseStream", "SessClose", "ConnFail", "TimerRead", "ReadBlock", "AcceptBlock":
+		case "CloseStream", "SessClose", "ConnFail", "TimerRead", "ReadBlock", "AcceptBlock", "AddConnFirst", "OpenRegister", "DeliverB":
 			return true
 		case "Deliver":
 			for c, m := range st.Obs.Inflight {
@@ -747,7 +901,16 @@ func muxNontrivial(b *muxBehaviour) bool {
 	return false
 }
 
-func muxConcretisations(idx int, all bool, unordered, singleplex bool, nc int) []muxConc {
+func muxConcretisations(idx int, all bool, base muxConc) []muxConc {
+	unordered, singleplex, nc := base.Unordered, base.Singleplex, base.NC
+	out := muxConcretisations0(idx, all, unordered, singleplex, nc)
+	for i := range out {
+		out[i].Gates, out[i].TimerEp, out[i].Late = base.Gates, base.TimerEp, base.Late
+	}
+	return out
+}
+
+func muxConcretisations0(idx int, all bool, unordered, singleplex bool, nc int) []muxConc {
 	methods := []byte{EncryptionMethodPlain, EncryptionMethodAES256GCM, EncryptionMethodChaha20Poly1305, EncryptionMethodAES128GCM}
 	var out []muxConc
 	if all {
@@ -769,6 +932,8 @@ func TestVerifMuxReplay(t *testing.T) {
 	singleplex := kit.Env("VERIF_MUX_SINGLEPLEX", "") == "1"
 	nc := kit.EnvInt("VERIF_MUX_NC", 2)
 	allConc := kit.Env("VERIF_MUX_ALLCONC", "") == "1"
+	base := muxConc{Unordered: unordered, Singleplex: singleplex, NC: nc, Gates: kit.Env("VERIF_MUX_GATES", "") == "1",
+		TimerEp: kit.Env("VERIF_MUX_TIMEREP", ""), Late: kit.EnvInt("VERIF_MUX_LATE", 0)}
 	if rp := kit.Env("VERIF_REPLAY", ""); rp != "" {
 		muxReplayFile(t, rp)
 		return
@@ -784,7 +949,7 @@ func TestVerifMuxReplay(t *testing.T) {
 		if res.NumViolations() > 10 || diverged > 10 {
 			return nil
 		}
-		for _, conc := range muxConcretisations(idx, allConc, unordered, singleplex, nc) {
+		for _, conc := range muxConcretisations(idx, allConc, base) {
 			var v muxVerdict
 			var table []string
 			var dv string
